@@ -3,6 +3,7 @@ from __future__ import annotations
 
 import random
 
+from ..core import Family
 from ..sim import srv as sim
 from .pumpfam import PumpFamily, gen_pump_case
 from .srvfam import ConnFamily, gen_resp
@@ -10,7 +11,7 @@ from .srvfam import ConnFamily, gen_resp
 ID = "C15"
 READY = True
 LEAN_TARGETS = ["NauyacaVerif.Props.C15"]
-THEOREMS = ['NauyacaVerif.C15.armed_while_waiting', 'NauyacaVerif.C15.armed_before_deadline', 'NauyacaVerif.C15.silent_closed', 'NauyacaVerif.C15.timeout_response', 'NauyacaVerif.C15.no_timeout_after_complete', 'NauyacaVerif.C15.tick_noop_after_complete', 'NauyacaVerif.C15.never_rearmed', 'NauyacaVerif.C15.pump_armed', 'NauyacaVerif.C15.pump_handshake_timeout_closes', 'NauyacaVerif.C15.pump_inner_timer', 'NauyacaVerif.C15.requestTimeout_tie']
+THEOREMS = ['NauyacaVerif.C15.armed_while_waiting', 'NauyacaVerif.C15.armed_before_deadline', 'NauyacaVerif.C15.silent_closed', 'NauyacaVerif.C15.timeout_response', 'NauyacaVerif.C15.no_timeout_after_complete', 'NauyacaVerif.C15.tick_noop_after_complete', 'NauyacaVerif.C15.never_rearmed', 'NauyacaVerif.C15.pump_armed', 'NauyacaVerif.C15.pump_handshake_timeout_closes', 'NauyacaVerif.C15.pump_inner_timer', 'NauyacaVerif.C15.requestTimeout_tie', 'NauyacaVerif.C15.flow_tick_after_send', 'NauyacaVerif.C15.flow_tick_fires']
 EXTRACT = ["requestTimeout8"]
 LEVEL_TEXT = "Proved over explicit time (1/8 s ticks) for every event list: the request timer is armed exactly while waiting for the line or Titan body on a connected unanswered connection, never re-armed, the deadline has not passed while it is armed, a connection still waiting at the deadline is gone, the timeout response is exactly '40 Request timeout' + close, no timeout once the request is complete; PyOpenSSL pump: handshake timer armed until the handshake completes and closing when it fires. Correspondence: stall after every byte offset of Gemini and Titan requests under a virtual clock with boundary ticks (239/240), trickling, expiry ordered before/after late data, completion and disconnect; stall at each TLS handshake flight of the real pump. Partial: the stdlib backend's handshake timeout is asyncio.sslproto's (only its presence is observable live)."
 LEVEL_NOTE = "Trusted: Lean kernel (axioms propext, Classical.choice, Quot.sound only); the hand-written model Srv.step/Srv.pumpStep is tied to /repo by extraction (constants, 'every transport.write sits in _send_response') and by the correspondence run of every check (fake transport with asyncio's write-after-close semantics, virtual-clock loop, scripted handlers; real PyOpenSSL pump over memory BIOs); asyncio's transport/timer contract, OpenSSL's record layer and Python exception texts are assumed, see assumptions."
@@ -166,4 +167,74 @@ class PumpStall(PumpFamily):
         return None
 
 
-FAMILIES = [Stall(), PumpStall()]
+class FlowTick(Family):
+    """the write pump under flow control WITH time passing: a peer that sent a complete request and reads its (large)
+    answer slowly -- the transport keeps writing paused for minutes -- is never cut off by the request timer; a peer that
+    sent nothing gets the timeout response through the same pump (also when the transport is paused at that moment)"""
+
+    name = "flowtick"
+    quick_n = 300
+    thorough_n = 6000
+
+    def __init__(self):
+        from . import c01
+        self._flow = c01.Flow()
+
+    def gen(self, rng: random.Random, n: int):
+        fixed = []
+        for size in (0, 65537, 200000, 400000):
+            for evs in ([["lim", 0], ["s"], ["tick", 241], ["rw"]], [["lim", 1], ["s"], ["tick", 239], ["tick", 2], ["rw"], ["tick", 100000], ["rw"]],
+                        [["tick", 239], ["lim", 0], ["s"], ["tick", 1], ["tick", 240], ["rw"], ["rw"]], [["tick", 240], ["s"]], [["pw"], ["tick", 240], ["rw"]],
+                        [["pw"], ["tick", 100], ["s"], ["tick", 200], ["rw"]], [["tick", 100], ["l"], ["tick", 200]], [["tick", 239], ["s"], ["tick", 1]]):
+                fixed.append({"resp": [20, "application/octet-stream", ["z", size]], "evs": evs})
+        for c in self.share(fixed):
+            yield c
+        for _ in range(n):
+            size = rng.choice([0, 1, 65536, 65537, 131073, 200000, 400000, rng.randint(0, 500000)])
+            evs = []
+            for _ in range(rng.randint(0, 2)):
+                evs.append(rng.choice([["tick", rng.choice([1, 100, 120, 239, 240])], ["lim", rng.randint(0, 3)], ["pw"], ["rw"]]))
+            evs.append(["s"])
+            for _ in range(rng.randint(1, 9)):
+                r = rng.random()
+                evs.append(["tick", rng.choice([1, 8, 100, 239, 240, 241, 480, 2400, 100000])] if r < 0.45 else ["rw"] if r < 0.75 else
+                           ["lim", rng.randint(0, 3)] if r < 0.9 else ["pw"] if r < 0.95 else ["l"])
+            yield {"resp": [rng.choice([20, 20, 51]), "application/octet-stream", ["z", size]], "evs": evs}
+
+    def impl(self, case):
+        return self._flow.impl(case)
+
+    def model(self, case):
+        return self._flow.model(case)
+
+    def expect(self, case, out):
+        return self._flow.expect(case, out)
+
+    def same(self, exp, obs):
+        return self._flow.same(exp, obs)
+
+    def oracle(self, case, obs):
+        # stated from the property alone: a timeout line may only appear when the request ("s") did not precede the deadline
+        t, sent_at = 0, None
+        for e in case["evs"]:
+            if e[0] == "tick":
+                t += e[1]
+            elif e[0] == "s" and sent_at is None and t < 240:
+                sent_at = t
+            elif e[0] == "l" and sent_at is None:
+                break
+        raw = bytes.fromhex(obs["raw"])
+        if sent_at is not None:
+            if raw.startswith(b"40 Request timeout"):
+                return ("timeout-after-complete", f"the request was complete at {sent_at / 8} s, yet the timeout response was written")
+            st, meta, body = case["resp"]
+            want = f"{st} {meta}\r\n".encode() + (b"Z" * body[1] if 20 <= st <= 29 else b"")
+            if "close" in obs["acts"] and raw != want:
+                return ("answer-cut-by-timer", f"a complete request was being answered ({len(raw)} of {len(want)} bytes written) when the connection was closed")
+        return self._flow.oracle(case, obs) if sent_at is not None else None
+
+    def key(self, case, obs):
+        return self._flow.key(case, obs) + f"|ticks{min(3, sum(1 for e in case['evs'] if e[0] == 'tick'))}"
+
+
+FAMILIES = [Stall(), PumpStall(), FlowTick()]
